@@ -292,7 +292,7 @@ package snaps
 //@   requires f != nil
 //@   requires quiescent || fsguard[fpath[f]] == nil || held[fsguard[fpath[f]]] == 2
 //@   assigns fsc[fpath[f]], foff[f], fswrites
-//@   ensures err == nil ==> fsc[fpath[f]] == b
+//@   ensures err == nil ==> fsc[fpath[f]] == b && foff[f] == len(b)
 //@   ensures fswrites > old(fswrites)
 //@
 //@ func updateSnapshot(testID, snapshot, snapPath) returns (err)
@@ -1507,6 +1507,8 @@ package snaps
 // at eend(F,e); headers are test-id lines, bodies contain no terminator, entries are ordered and disjoint, every
 // header-shaped line outside the entries' bodies is an entry header, and no body line equals an entry header
 // (the K2 restriction). eidx numbers the entries by header, which makes the headers pairwise distinct.
+//@ end
+//@ specfun idOfHdr(b Str) Str = substr(b, 1, len(b) - 2)
 //@ mode lines
 //@ axiom line_whole: forall s Str {seg(s, 0)}: nl(s) == 1 ==> seg(s, 0) == s
 //@ specfun term(s Str) Bool = seg(s, nl(s) - 1) == ""
@@ -1515,7 +1517,6 @@ package snaps
 //@ specfun eend(F Str, e Int) Int
 //@ specfun entOf(F Str, j Int) Int
 //@ specfun eidx(F Str, h Str) Int
-//@ specfun idOfHdr(b Str) Str = substr(b, 1, len(b) - 2)
 //@ specfun entryForm(F Str) Bool
 //@ specfun entryFormDef(F Str) Bool = nent(F) >= 0
 //@   && (forall e in 0..nent(F): 0 <= ehdr(F, e) && ehdr(F, e) < eend(F, e) && eend(F, e) < ntok(F) && isTestHdr(tok(F, ehdr(F, e))) && tok(F, eend(F, e)) == "---" && eidx(F, tok(F, ehdr(F, e))) == e)
@@ -1536,10 +1537,55 @@ package snaps
 //@ lemma end_unique @C07,C09,C10 use=lines: forall F Str, e Int, q Int {eend(F, e), seg(F, q)}: entryForm(F) && 0 <= e && e < nent(F) && ehdr(F, e) < q && q <= eend(F, e) && tok(F, q) == "---" ==> q == eend(F, e)
 //@ lemma hdr_distinct @C07,C09,C10 use=lines: forall F Str, e1 Int, e2 Int {ehdr(F, e1), ehdr(F, e2)}: entryForm(F) && 0 <= e1 && e1 < nent(F) && 0 <= e2 && e2 < nent(F) && e1 != e2 ==> tok(F, ehdr(F, e1)) != tok(F, ehdr(F, e2))
 // capOK(F, e, T): T is the captured text of entry e: its body lines, each followed by a newline
-//@ specfun capOK(F Str, e Int, T Str) Bool = term(T) && nl(T) == eend(F, e) - ehdr(F, e) && (forall i in 0..nl(T) - 1: seg(T, i) == tok(F, ehdr(F, e) + 1 + i))
+// capPart(F, e, T, q): T is the text captured from entry e when the scanner stands at token q
+//@ specfun capPart(F Str, e Int, T Str, q Int) Bool
+//@ specfun capPartDef(F Str, e Int, T Str, q Int) Bool = term(T) && nl(T) == q - ehdr(F, e) && (forall i in 0..nl(T) - 1: seg(T, i) == tok(F, ehdr(F, e) + 1 + i))
+//@ axiom capPart_def: forall F Str, e Int, T Str, q Int {capPart(F, e, T, q)}: capPart(F, e, T, q) == capPartDef(F, e, T, q)
+//@ specfun capOK(F Str, e Int, T Str) Bool = capPart(F, e, T, eend(F, e))
+// ---- writing one record "\n[id]\nT---\n" (the rewrite loop of examineSnaps) -----------------------------------
+// recShape(G, h, T, G2): G2 is G followed by a blank line, the header line h, the lines of T and a terminator
+//@ specfun recShape(G Str, h Str, T Str, G2 Str) Bool
+//@ specfun recShapeDef(G Str, h Str, T Str, G2 Str) Bool = nl(G2) == nl(G) + nl(T) + 2
+//@   && (forall w in 0..nl(G): seg(G2, w) == seg(G, w))
+//@   && seg(G2, nl(G)) == h
+//@   && (forall w in nl(G) + 1..nl(G) + nl(T): seg(G2, w) == seg(T, w - nl(G) - 1))
+//@   && seg(G2, nl(G) + nl(T)) == "---" && seg(G2, nl(G) + nl(T) + 1) == ""
+//@   && seg(G2, nl(G) - 1) == seg(G, nl(G) - 1) && (nl(T) > 1 ==> seg(G2, nl(G) + 1) == seg(T, 0))
+//@ axiom recShape_def: forall G Str, h Str, T Str, G2 Str {recShape(G, h, T, G2)}: recShape(G, h, T, G2) == recShapeDef(G, h, T, G2)
+//@ specfun noENDt(T Str) Bool = forall i in 0..nl(T) - 1: seg(T, i) != "---"
+//@ specfun lacksT(T Str, h Str) Bool = forall i in 0..nl(T) - 1: seg(T, i) != h
+//@ specfun bodyIs(G Str, h Str, T Str) Bool
+//@ specfun bodyIsDef(G Str, h Str, T Str) Bool = nl(T) == endPos(G, h) - hdrPos(G, h) && (forall i in 0..nl(T) - 1: seg(T, i) == tok(G, hdrPos(G, h) + 1 + i))
+//@ axiom bodyIs_def: forall G Str, h Str, T Str {bodyIs(G, h, T)}: bodyIs(G, h, T) == bodyIsDef(G, h, T)
+//@ lemma rec_shape @C10 use=lines: forall G Str, id Str, T Str {G + "\n[" + id + "]\n" + T + "---\n"}: isLine(id) && term(G) && term(T) && mention(seg("[" + id + "]", 0)) ==> recShape(G, "[" + id + "]", T, G + "\n[" + id + "]\n" + T + "---\n")
+//@ lemma RT_rec @C10 use=lines: forall G Str, h Str, T Str, G2 Str {recShape(G, h, T, G2)}: recShape(G, h, T, G2) && term(G) && term(T) && isLine(h) && h != "" && h != "---" && absent(G, h) && noENDt(T) ==> found(G2, h) && hdrPos(G2, h) == nl(G) && endPos(G2, h) == nl(G) + nl(T) && bodyIs(G2, h, T)
+//@ lemma WF_rec @C10 use=lines: forall G Str, h Str, T Str, G2 Str {recShape(G, h, T, G2)}: recShape(G, h, T, G2) ==> wf(G2) && term(G2)
+//@ lemma ISO_rec_found @C10 use=lines: forall G Str, h Str, T Str, G2 Str, h2 Str {recShape(G, h, T, G2), found(G2, h2)} {recShape(G, h, T, G2), found(G, h2)}: recShape(G, h, T, G2) && term(G) && term(T) && h != "---" && wf(G) && h2 != h && h2 != "" && h2 != "---" && lacksT(T, h2) ==> found(G2, h2) == found(G, h2)
+//@ lemma ISO_rec_pos @C10 use=lines: forall G Str, h Str, T Str, G2 Str, h2 Str {recShape(G, h, T, G2), hdrPos(G2, h2)} {recShape(G, h, T, G2), hdrPos(G, h2)}: recShape(G, h, T, G2) && term(G) && term(T) && h != "---" && wf(G) && h2 != h && h2 != "" && h2 != "---" && lacksT(T, h2) && found(G, h2) ==> hdrPos(G2, h2) == hdrPos(G, h2) && endPos(G2, h2) == endPos(G, h2)
+//@ lemma ISO_rec_bodyIs @C10 use=lines: forall G Str, h Str, T Str, G2 Str, h2 Str, T2 Str {recShape(G, h, T, G2), bodyIs(G2, h2, T2)} {recShape(G, h, T, G2), bodyIs(G, h2, T2)}: recShape(G, h, T, G2) && term(G) && term(T) && h != "---" && wf(G) && h2 != h && h2 != "" && h2 != "---" && lacksT(T, h2) && found(G, h2) && bodyIs(G, h2, T2) ==> bodyIs(G2, h2, T2)
+//@ specfun absentU(G Str, h Str) Bool
+//@ axiom absentU_def: forall G Str, h Str {absentU(G, h)}: absentU(G, h) == absent(G, h)
+//@ lemma ISO_rec_absent @C10 use=lines: forall G Str, h Str, T Str, G2 Str, h2 Str {recShape(G, h, T, G2), absentU(G2, h2)}: recShape(G, h, T, G2) && term(G) && term(T) && h2 != h && h2 != "" && h2 != "---" && lacksT(T, h2) && absentU(G, h2) ==> absentU(G2, h2)
+// an entry of a well-formed file is what the lookup finds for its header
+//@ lemma entry_found @C07,C09,C10 use=lines: forall F Str, e Int {ehdr(F, e)}: entryForm(F) && 0 <= e && e < nent(F) ==> found(F, tok(F, ehdr(F, e))) && hdrPos(F, tok(F, ehdr(F, e))) == ehdr(F, e) && endPos(F, tok(F, ehdr(F, e))) == eend(F, e)
+//@ lemma body_same @C07,C09,C10 use=lines: forall F0 Str, F1 Str, h Str, T Str {bodyIs(F1, h, T), bodyIs(F0, h, T)}: found(F0, h) && found(F1, h) && term(T) && bodyIs(F0, h, T) && bodyIs(F1, h, T) ==> body(F1, h) == body(F0, h)
+// idxOf(s, x): an index at which x occurs in s, if there is one (the least one); inS(s, x): x occurs in s
+//@ specfun idxOf(s Slice<Str>, x Str) Int
+//@ axiom idxOf_hit: forall s Slice<Str>, k Int {s[k]}: 0 <= k && k < len(s) ==> 0 <= idxOf(s, s[k]) && idxOf(s, s[k]) < len(s) && s[idxOf(s, s[k])] == s[k]
+//@ specfun inS(s Slice<Str>, x Str) Bool = 0 <= idxOf(s, x) && idxOf(s, x) < len(s) && s[idxOf(s, x)] == x
+// relKeepAll(F0, F1): every entry of F0 is found in F1 with the body it had in F0
+//@ specfun relKeepAll(F0 Str, F1 Str) Bool
+//@ specfun relKeepAllDef(F0 Str, F1 Str) Bool = forall e in 0..nent(F0): found(F1, tok(F0, ehdr(F0, e))) && body(F1, tok(F0, ehdr(F0, e))) == body(F0, tok(F0, ehdr(F0, e)))
+//@ axiom relKeepAll_def: forall F0 Str, F1 Str {relKeepAll(F0, F1)}: relKeepAll(F0, F1) == relKeepAllDef(F0, F1)
+//@ lemma entry_kept @C07,C09,C10 use=lines: forall F Str, G Str, e Int, T Str {capPart(F, e, T, eend(F, e)), bodyIs(G, tok(F, ehdr(F, e)), T)}: entryForm(F) && 0 <= e && e < nent(F) && capOK(F, e, T) && found(G, tok(F, ehdr(F, e))) && bodyIs(G, tok(F, ehdr(F, e)), T)
+//@      ==> body(G, tok(F, ehdr(F, e))) == body(F, tok(F, ehdr(F, e)))
+//@ mode str
+//@ lemma hdr_id @C07,C09,C10 use=ctl,lines: forall b Str {idOfHdr(b)}: isTestHdr(b) ==> "[" + idOfHdr(b) + "]" == b
+//@ lemma hdr_shape @C07,C09,C10 use=ctl,lines: forall b Str {prefixof("[Test", b)}: isTestHdr(b) ==> b != "" && b != "---"
 //@ mode all
 //@ func examineSnaps(registry, used, runOnly, count, update, sort) returns (obs, err)
 //@   mode lines
+//@   option paths-in-loops
 //@   dead ret2
 //@   requires quiescent && count >= 1 && skippedTests != nil
 //@   requires forall p Str, id Str {registry[p][id]}: has(registry, p) && has(registry[p], id) ==> registry[p][id] >= 0
@@ -1547,6 +1593,8 @@ package snaps
 //@   ensures [nonsnap] forall p Str {fsc[p]}: (forall k in 0..len(used): used[k] != p) ==> fsc[p] == old(fsc)[p]
 //@   ensures [noop] !update && !sort ==> fswrites == old(fswrites) && fsc == old(fsc)
 //@   ensures [only_used] forall p Str {fsc[p]}: (forall k in 0..len(used): used[k] != p) ==> fsc[p] == old(fsc)[p]
+//@   ensures [content_kept] forall kk in 0..len(used): (forall k2 in 0..len(used): k2 != kk ==> used[k2] != used[kk]) && entryForm(old(fsc)[used[kk]]) && !update && err == nil
+//@        ==> fsc[used[kk]] == old(fsc)[used[kk]] || relKeepAll(old(fsc)[used[kk]], fsc[used[kk]])
 //@   let mapsKept = forall r0 Ref: old(alloc)[r0] ==> domheap("map[string]struct{}")[r0] == old(domheap("map[string]struct{}"))[r0] && valheap("map[string]struct{}")[r0] == old(valheap("map[string]struct{}"))[r0]
 //@         && domheap("map[string]string")[r0] == old(domheap("map[string]string"))[r0] && valheap("map[string]string")[r0] == old(valheap("map[string]string"))[r0]
 //@         && domheap("map[string]int")[r0] == old(domheap("map[string]int"))[r0] && valheap("map[string]int")[r0] == old(valheap("map[string]int"))[r0]
@@ -1558,6 +1606,10 @@ package snaps
 //@   let kept = !update ==> (forall k in 0..len(testIDs): has(tests, testIDs[k]))
 //@   loop 1 invariant mapsKept && gate && locals && 0 <= $idx_1 && len(testIDs) == 0
 //@   loop 1 invariant [reset] wbuf[data] == "" && (forall id Str {has(tests, id)}: !has(tests, id))
+//@   let unvisited = forall p Str {fsc[p]}: (forall k2 in 0..$idx_1: used[k2] != p) ==> fsc[p] == old(fsc)[p]
+//@   let doneOK = forall kk in 0..$idx_1: (forall k2 in 0..len(used): k2 != kk ==> used[k2] != used[kk]) && entryForm(old(fsc)[used[kk]]) && !update
+//@        ==> fsc[used[kk]] == old(fsc)[used[kk]] || relKeepAll(old(fsc)[used[kk]], fsc[used[kk]])
+//@   loop 1 invariant [visited] unvisited && doneOK
 //@   loop 1.1 invariant mapsKept && gate && locals && 0 <= $idx_1 && $idx_1 < len(used) && snapPath == used[$idx_1]
 //@   loop 1.1 invariant f != nil && !old(alloc)[f] && fpath[f] == snapPath && s != nil && !old(alloc)[s] && s != f && s != data && f != data && scunb[s] && scsrc[s] == fsc[snapPath] && 0 <= scpos[s] && scpos[s] <= ntok(scsrc[s])
 //@   loop 1.1 invariant registeredTests != nil
@@ -1567,7 +1619,7 @@ package snaps
 //@   let pos = scpos[s]
 //@   loop 1.1 invariant [data] wbuf[data] == "" || pos == ntok(F)
 //@   loop 1.1 invariant [cap] entryForm(F) ==> 0 <= n && n <= nent(F) && gapLo(F, n) <= pos && pos <= gapHi(F, n)
-//@       && (forall k in 0..n: "[" + testIDs[k] + "]" == tok(F, ehdr(F, k)) && testIDs[k] == idOfHdr(tok(F, ehdr(F, k))))
+//@       && (forall k in 0..n: "[" + testIDs[k] + "]" == tok(F, ehdr(F, k)) && testIDs[k] == idOfHdr(tok(F, ehdr(F, k))) && isLine(testIDs[k]))
 //@       && (forall k in 0..n: has(tests, testIDs[k]) ==> capOK(F, k, tests[testIDs[k]]))
 //@       && (forall k in 0..n: !has(tests, testIDs[k]) ==> update)
 //@       && (forall id Str {has(tests, id)}: has(tests, id) ==> 0 <= eidx(F, "[" + id + "]") && eidx(F, "[" + id + "]") < n && testIDs[eidx(F, "[" + id + "]")] == id)
@@ -1576,12 +1628,23 @@ package snaps
 //@   loop 1.1.1 invariant registeredTests != nil && len(testIDs) >= 1 && testIDs[len(testIDs) - 1] == testID
 //@   loop 1.1.1 invariant !update ==> (forall k in 0..len(testIDs) - 1: has(tests, testIDs[k]))
 //@   loop 1.1.1 invariant [cap] entryForm(F) ==> 1 <= n && n <= nent(F) && ehdr(F, n - 1) < pos && pos <= eend(F, n - 1)
-//@       && (forall k in 0..n: "[" + testIDs[k] + "]" == tok(F, ehdr(F, k)) && testIDs[k] == idOfHdr(tok(F, ehdr(F, k))))
+//@       && (forall k in 0..n: "[" + testIDs[k] + "]" == tok(F, ehdr(F, k)) && testIDs[k] == idOfHdr(tok(F, ehdr(F, k))) && isLine(testIDs[k]))
 //@       && (forall k in 0..n - 1: has(tests, testIDs[k]) ==> capOK(F, k, tests[testIDs[k]]))
 //@       && (forall k in 0..n - 1: !has(tests, testIDs[k]) ==> update)
 //@       && (forall id Str {has(tests, id)}: has(tests, id) ==> 0 <= eidx(F, "[" + id + "]") && eidx(F, "[" + id + "]") < n - 1 && testIDs[eidx(F, "[" + id + "]")] == id)
-//@       && term(wbuf[data]) && nl(wbuf[data]) == pos - ehdr(F, n - 1) && (forall i in 0..nl(wbuf[data]) - 1: seg(wbuf[data], i) == tok(F, ehdr(F, n - 1) + 1 + i))
+//@       && capPart(F, n - 1, wbuf[data], pos)
 //@   loop 1.2 invariant mapsKept && fsxKept && locals && 0 <= $idx_1 && $idx_1 < len(used) && snapPath == used[$idx_1] && f != nil && !old(alloc)[f] && fpath[f] == snapPath && f != data
+//@   let G = fsc[snapPath]
+//@   loop 1.2 invariant [visited] (forall p Str {fsc[p]}: p != snapPath && (forall k2 in 0..$idx_1: used[k2] != p) ==> fsc[p] == old(fsc)[p]) && doneOK
+//@   loop 1.2 invariant [open] s != nil && ((forall k2 in 0..$idx_1: used[k2] != snapPath) ==> F == old(fsc)[snapPath]) && foff[f] == len(G)
+//@   loop 1.2 invariant [emit] entryForm(F) ==> n == nent(F) && term(G) && wf(G) && 0 <= $idx && $idx <= n
+//@       && (forall k in 0..n: isLine(testIDs[k]) && 0 <= eidx(F, "[" + testIDs[k] + "]") && eidx(F, "[" + testIDs[k] + "]") < nent(F) && tok(F, ehdr(F, eidx(F, "[" + testIDs[k] + "]"))) == "[" + testIDs[k] + "]")
+//@       && (forall k1 in 0..n: forall k2 in 0..n: k1 != k2 ==> testIDs[k1] != testIDs[k2])
+//@       && (forall k in 0..n: has(tests, testIDs[k]) ==> capOK(F, eidx(F, "[" + testIDs[k] + "]"), tests[testIDs[k]]))
+//@       && (forall e in 0..nent(F): inS(testIDs, idOfHdr(tok(F, ehdr(F, e)))))
+//@       && (forall k in 0..n: !has(tests, testIDs[k]) ==> update)
+//@       && (forall k in 0..$idx: has(tests, testIDs[k]) ==> found(G, "[" + testIDs[k] + "]") && bodyIs(G, "[" + testIDs[k] + "]", tests[testIDs[k]]))
+//@       && (forall k in $idx..n: absentU(G, "[" + testIDs[k] + "]"))
 //@   loop 1.2 invariant (update || sort) && (forall p Str {fsc[p]}: (forall k in 0..len(used): used[k] != p) ==> fsc[p] == old(fsc)[p])
 
 // ---- summary (C20) -----------------------------------------------------------------------------------
